@@ -30,8 +30,11 @@ type c14Src struct {
 	mcPeer       int
 	mcPort       int
 	datagramSize int
-	left2        int    // receive-side stream offset (mcast-write)
-	empty        []bool // datagram i is empty (reads of it complete at once with n=0 or EOF)
+	left2        int // receive-side stream offset (mcast-write)
+	mcPeer2      int // a second destination for mcast-write (-1 if none)
+	mcPort2      int
+	mcExpect     [2][]int // per destination: stream offsets of the datagrams written to it, in order
+	empty        []bool   // datagram i is empty (reads of it complete at once with n=0 or EOF)
 	recvIdx      int
 	later        [][]byte // datagrams held back: sent one at a time once a read of this source is parked in the poller
 	laterTo      syscall.Sockaddr
@@ -176,6 +179,18 @@ func runC14(c *vf.Case) {
 			rawpeer.SetBufs(p.NextLayer().RawFd(), 0, 1<<20)
 			rawpeer.SetBufs(peer, 0, 1<<20)
 			s.mc, s.mcPeer, s.mcPort = p, peer, port
+			s.mcPeer2 = -1
+			if k == "mcast-write" {
+				// consecutive writes alternate between two destinations: a deferred write must go where it was addressed
+				peer2, port2, err := rawpeer.UDP4([4]byte{127, 0, 0, 1})
+				if err != nil {
+					c.Failf("harness-setup", "%v", err)
+					return
+				}
+				closers = append(closers, func() { syscall.Close(peer2) })
+				rawpeer.SetBufs(peer2, 0, 1<<20)
+				s.mcPeer2, s.mcPort2 = peer2, port2
+			}
 			s.left = 100
 			s.datagramSize = 24
 			if k == "mcast-read" {
@@ -225,6 +240,7 @@ func runC14(c *vf.Case) {
 		}
 	}
 	deferredHops := map[string]int{}
+	nestedPolls := 0
 	transitions := map[string]bool{}
 	lastKind := ""
 	var next func()
@@ -233,6 +249,16 @@ func runC14(c *vf.Case) {
 		if wasDeferred {
 			deferredHops[s.kind]++
 			transitions[kindAtStart+"->"+s.kind] = true
+		}
+		if w.IOC.Dispatched > 0 && r.Chance(1, 150) {
+			// a callback that gives the loop a turn (nothing else is outstanding, nothing is ready): the frames below it
+			// are still on the stack and still counted
+			before := w.IOC.Dispatched
+			_, _ = w.IOC.PollOne()
+			nestedPolls++
+			if w.IOC.Dispatched != before {
+				c.Failf("dispatched-counter-changed-by-nested-poll", "IO.Dispatched was %d before PollOne() called from a completion callback %d frames deep and is %d after it", before, w.Depth, w.IOC.Dispatched)
+			}
 		}
 		next()
 	}
@@ -400,10 +426,15 @@ func runC14(c *vf.Case) {
 		case "mcast-write":
 			buf := make([]byte, s.datagramSize)
 			vf.GenFill(buf, s.gen, s.off)
+			dst, dstPort := 0, s.mcPort
+			if s.mcPeer2 >= 0 && r.Bool() {
+				dst, dstPort = 1, s.mcPort2
+			}
+			s.mcExpect[dst] = append(s.mcExpect[dst], s.off)
 			s.off += len(buf)
 			returned := false
 			calls := 0
-			s.mc.AsyncWrite(buf, netip.AddrPortFrom(netip.AddrFrom4([4]byte{127, 0, 0, 1}), uint16(s.mcPort)), func(err error, n int) {
+			s.mc.AsyncWrite(buf, netip.AddrPortFrom(netip.AddrFrom4([4]byte{127, 0, 0, 1}), uint16(dstPort)), func(err error, n int) {
 				w.EnterCB()
 				noteDepth(false)
 				deferred := returned
@@ -419,6 +450,32 @@ func runC14(c *vf.Case) {
 			})
 			returned = true
 		}
+	}
+	drainMc := func(s *c14Src) {
+
+		for di, fd := range []int{s.mcPeer, s.mcPeer2} {
+			for fd >= 0 {
+				d := make([]byte, 2048)
+				n, _, err := syscall.Recvfrom(fd, d, 0)
+				if err != nil || n <= 0 {
+					break
+				}
+				if len(s.mcExpect[di]) == 0 {
+					c.Failf("deferred-hop-result-differs/mcast-write", "destination %d received a datagram of %d bytes that was not addressed to it (a deferred write went to another write's destination)", di, n)
+					break
+				}
+				off := s.mcExpect[di][0]
+				s.mcExpect[di] = s.mcExpect[di][1:]
+				for i := 0; i < n; i++ {
+					if d[i] != vf.Gen(s.gen, off+i) {
+						c.Failf("deferred-hop-result-differs/mcast-write", "datagram received at destination %d is not the one written to it at stream offset %d (a deferred write sent another write's buffer or went to another write's destination)", di, off)
+						break
+					}
+				}
+				s.left2 += n
+			}
+		}
+
 	}
 	next()
 	for it := 0; it < 20*L+200 && done < L && !c.Failed(); it++ {
@@ -448,25 +505,22 @@ func runC14(c *vf.Case) {
 				w.PeerDrain(s.o)
 			}
 			if s.kind == "mcast-write" {
-				for {
-					d := make([]byte, 2048)
-					n, _, err := syscall.Recvfrom(s.mcPeer, d, 0)
-					if err != nil || n <= 0 {
-						break
-					}
-					for i := 0; i < n; i++ {
-						if d[i] != vf.Gen(s.gen, s.left2+i) {
-							c.Failf("deferred-hop-result-differs/mcast-write", "datagram received from the multicast peer at stream offset %d is not the one written (a deferred write sent another write's buffer)", s.left2)
-							break
-						}
-					}
-					s.left2 += n
-				}
+				drainMc(s)
 			}
 		}
 		w.Poll()
 	}
 	if !c.Failed() {
+		for _, s := range srcs {
+			if s.kind == "mcast-write" {
+				drainMc(s)
+				for di := range s.mcExpect {
+					if n := len(s.mcExpect[di]); n > 0 && !c.Failed() {
+						c.Failf("deferred-hop-result-differs/mcast-write", "%d datagrams whose writes completed successfully never arrived at destination %d (first at stream offset %d)", n, di, s.mcExpect[di][0])
+					}
+				}
+			}
+		}
 		if done < L {
 			c.Failf("chain-did-not-continue-through-deferred-hop", "only %d of %d operations completed: an operation deferred at the bound never completed", done, L)
 		}
@@ -616,6 +670,7 @@ func runC14(c *vf.Case) {
 	c.Max("max_depth_of_a_refused_regular_file_callback", int64(deepestRefusedFile))
 	c.Count("regular_file_operations_refused_at_the_bound", refusedFileOps)
 	c.Count("chain_operations", done)
+	c.Count("polls_from_inside_a_completion_callback", nestedPolls)
 	c.Count("zero_length_operations", zeroLen)
 	c.Count("reads_of_empty_datagrams", emptyReads)
 	c.Count("reads_parked_inside_a_callback_and_completed_by_the_poller", parkedThenFed)
